@@ -53,12 +53,16 @@ WHITELIST = {
 ORDER = ["bits_to_bytes", "write_real_uint64", "write_uint32", "read_real_uint64", "read_uint32",
          "write_uint64", "read_uint64", "write_boolean", "read_boolean"]
 
+import re as _re
+
 COQ_TY = {"int": "Z", "bytes": "bytes", "bool": "bool", "boollist": "list bool",
           # second wave
           "str": "list Z",            # Python str: the list of its code points
           "path": "ppath",            # pathlib.Path object: Path.v's model (raw segments)
           "list:str": "list (list Z)",
           "optint": "option Z",       # Optional[int]
+          "match2": "(list Z * list Z)",            # re.Match of a pattern with two groups that always take part
+          "optmatch2": "option (list Z * list Z)",  # what pattern.match() returns
           "unit": "unit"}
 
 
@@ -107,11 +111,21 @@ for _n, _c, _r in (("_test_attribute", "test_attribute", "bool"), ("_get_unix_ex
                                       coqname=_c, selfargs={"attrs": "optint"}, self_props={"attributes": "attrs"},
                                       args=({"target_bit": "int"} if _n == "_test_attribute" else {}), ret=_r,
                                       out="AttrDecoders")
+for _n, _c, _r in (("_check_volumesize_valid", "check_volumesize_valid", "bool"),
+                   ("_volumesize_unitconv", "volumesize_unitconv", "int")):
+    # methods of cli.Cli that only read the constants self.unit_pattern (compiled in __init__) and Cli.dunits
+    WAVE2["Cli." + _n] = dict(file="cli.py", qual="Cli." + _n, kind="method", cls="Cli", coqname=_c, selfargs={},
+                              self_props={}, args={"size": "str"}, ret=_r, out="CliVol")
 OUT_FILES = {
     # out -> (source description, Require line)
     "HelpersPath": ("py7zr/helpers.py", "From P7 Require Import Prelude PyPrims PyStr Path."),
     "AttrDecoders": ("py7zr/py7zr.py (class ArchiveFile)", "From P7 Require Import Prelude PyPrims PyStr PyStat."),
+    "CliVol": ("py7zr/cli.py (class Cli)", "From P7 Require Import Prelude PyPrims PyStr PyRe."),
 }
+# the regular expressions the translator knows: r"^([0-9]+)([<ascii lower-case letters>]?)$" compiled with
+# re.IGNORECASE -> PyRe.re_digits_optletter_ci <letters> (compared with CPython's re by tools/harness/prims.py)
+RE_DIGITS_OPTLETTER = r"\^\(\[0-9\]\+\)\(\[([a-z]+)\]\?\)\$"
+
 # names of the stat module the translated code reads through hasattr/getattr(stat, NAME): Gallina constants of
 # theories/PyStat.v (existence and values compared with CPython by tools/harness/prims.py)
 STAT_CONSTANTS = ("FILE_ATTRIBUTE_ARCHIVE", "FILE_ATTRIBUTE_DIRECTORY", "FILE_ATTRIBUTE_READONLY",
@@ -283,6 +297,8 @@ class FnTr:
             return "(py_nonempty %s)" % v
         if t == "int":
             return "(negb (%s =? 0))" % v
+        if t == "optmatch2":
+            return "(py_is_some %s)" % v
         self.refuse(e, "truth value of " + t)
 
     def test(self, e):
@@ -371,6 +387,9 @@ class FnTr:
         self.refuse(e, "compare %s on %s,%s" % (type(op).__name__, tl, tr))
 
     def subscript(self, e):
+        if self.kind == "method" and isinstance(e.value, ast.Attribute) and isinstance(e.value.value, ast.Name) \
+                and e.value.value.id == "self":
+            return self.self_dict(e)
         # call(...)[0] on a tuple-returning call
         pb, b, tb = self.expr(e.value)
         s = e.slice
@@ -482,6 +501,9 @@ class FnTr:
             return p + ["do %s <- py_ord %s;" % (t1, v)], t1, "int"
         if fn == "int" and len(args) == 1:
             p, v, t = self.expr(args[0])
+            if t == "str" and self.module is not None and not e.keywords:
+                t1 = self.fresh()
+                return p + ["do %s <- py_int_ascii_digits %s;" % (t1, v)], t1, "int"
             if t != "int":
                 self.refuse(e, "int() arg")
             return p, v, "int"
@@ -557,6 +579,9 @@ class FnTr:
             return pre, "([%s] : ppath)" % "; ".join(vs), "path"
         if isinstance(f.value, ast.Name) and f.value.id == "self" and self.kind == "method":
             return self.selfcall(e)
+        if isinstance(f.value, ast.Attribute) and isinstance(f.value.value, ast.Name) and f.value.value.id == "self" \
+                and self.kind == "method":
+            return self.self_regex(e)
         if d is not None and d.startswith("stat.") and "stat" not in self.ty and f.attr in STAT_FUNCTIONS and len(args) == 1:
             fn, rt = STAT_FUNCTIONS[f.attr]
             p, v, t = self.unwrap(*self.expr(args[0]))
@@ -565,6 +590,8 @@ class FnTr:
             t1 = self.fresh()
             return p + ["do %s <- %s %s;" % (t1, fn, v)], t1, rt
         p, v, t = self.expr(f.value)
+        if t == "match2" and f.attr == "group" and len(args) == 1 and self.const_int(args[0]) in (1, 2):
+            return p, "(%s %s)" % ("fst" if self.const_int(args[0]) == 1 else "snd", v), "str"
         if t == "str" and f.attr in ("startswith", "endswith") and len(args) == 1:
             pa, a, ta = self.expr(args[0])
             if ta != "str":
@@ -573,6 +600,78 @@ class FnTr:
         if t == "path" and f.attr == "is_absolute" and not args:
             return p, "(pp_is_absolute %s)" % v, "bool"
         self.refuse(e, "method %s of %s" % (f.attr, t))
+
+    def class_node(self):
+        return next((n for n in self.module.body if isinstance(n, ast.ClassDef) and n.name == self.spec.get("cls")), None)
+
+    def self_attr_value(self, name):
+        """the expression bound to self.<name>: the only `self.<name> = e` of the class (in __init__), or the only
+        class-level `<name> = e`; None when it is assigned more than once or not found"""
+        cls = self.class_node()
+        if cls is None:
+            return None
+        found = []
+        for st in ast.walk(cls):
+            tgts = []
+            if isinstance(st, ast.Assign):
+                tgts = st.targets
+            elif isinstance(st, (ast.AugAssign, ast.AnnAssign)):
+                tgts = [st.target]
+            elif isinstance(st, ast.Delete):
+                tgts = st.targets
+            for t in tgts:
+                for n in ast.walk(t):
+                    if isinstance(n, ast.Attribute) and n.attr == name:
+                        found.append((st, "inst"))
+                    if isinstance(n, ast.Name) and n.id == name and st in cls.body:
+                        found.append((st, "class"))
+        if len(found) != 1 or not isinstance(found[0][0], ast.Assign) or len(found[0][0].targets) != 1:
+            return None
+        st, where = found[0]
+        if where == "inst":
+            init = next((n for n in cls.body if isinstance(n, ast.FunctionDef) and n.name == "__init__"), None)
+            t = st.targets[0]
+            if init is None or st not in init.body or not (isinstance(t, ast.Attribute) and isinstance(t.value, ast.Name)
+                                                            and t.value.id == "self"):
+                return None
+        return st.value
+
+    def self_regex(self, e):
+        """self.<pat>.match(x) where self.<pat> = re.compile(<known pattern>, re.IGNORECASE)"""
+        f, args = e.func, e.args
+        v = self.self_attr_value(f.value.attr)
+        ok = isinstance(v, ast.Call) and self.dotted(v.func) == "re.compile" and len(v.args) == 2 and not v.keywords \
+            and isinstance(v.args[0], ast.Constant) and isinstance(v.args[0].value, str) \
+            and self.dotted(v.args[1]) == "re.IGNORECASE"
+        if not ok or f.attr != "match" or len(args) != 1 or e.keywords:
+            self.refuse(e, "regular expression use")
+        m = _re.fullmatch(RE_DIGITS_OPTLETTER, v.args[0].value)
+        if m is None or len(set(m.group(1))) != len(m.group(1)):
+            self.refuse(e, "regular expression %r is not one the translator knows" % v.args[0].value)
+        p, a, t = self.expr(args[0])
+        if t != "str":
+            self.refuse(e, "match() argument type " + t)
+        return p, "(re_digits_optletter_ci %s %s)" % (str_lit(m.group(1)), a), "optmatch2"
+
+    def self_dict(self, e):
+        """self.<d>[k] where <d> is a class-level dict literal with distinct str keys and int-valued entries"""
+        v = self.self_attr_value(e.value.attr)
+        if not isinstance(v, ast.Dict) or not v.keys:
+            self.refuse(e, "self.%s is not a dict literal" % e.value.attr)
+        items, seen = [], set()
+        for k, x in zip(v.keys, v.values):
+            if not (isinstance(k, ast.Constant) and isinstance(k.value, str)) or k.value in seen:
+                self.refuse(e, "dict key")
+            seen.add(k.value)
+            px, vx, tx = self.expr(x)
+            if px or tx != "int":
+                self.refuse(e, "dict value")
+            items.append("(%s, %s)" % (str_lit(k.value), vx))
+        pk, kv, tk = self.expr(e.slice)
+        if tk != "str":
+            self.refuse(e, "dict key type " + tk)
+        t1 = self.fresh()
+        return pk + ["do %s <- py_dict_str_get [%s] %s;" % (t1, "; ".join(items), kv)], t1, "int"
 
     def selfcall(self, e):
         """self.m(...) inside a method: the property table of the spec, or another translated method of the class"""
@@ -658,6 +757,13 @@ class FnTr:
             return cont()  # docstring
         if isinstance(st, ast.Pass):
             return cont()
+        if isinstance(st, ast.Return) and isinstance(st.value, ast.IfExp) and self.module is not None:
+            # `return a if c else b`  ==  `if c: return a` / `else: return b`
+            v = st.value
+            fake = ast.If(test=v.test, body=[ast.Return(value=v.body)], orelse=[ast.Return(value=v.orelse)])
+            for n in [fake] + fake.body + fake.orelse:
+                ast.copy_location(n, st)
+            return self.block([fake], lambda: self.refuse(st, "fall through a conditional return"))
         if isinstance(st, ast.Return):
             if st.value is None:
                 return self.ret("tt")
@@ -741,13 +847,14 @@ class FnTr:
                 and isinstance(st.test.comparators[0], ast.Constant) and st.test.comparators[0].value is None:
             # `if x is None:` / `if x is not None:` on an Optional[int] variable: a match that rebinds x as the int
             x = st.test.left
-            if not (isinstance(x, ast.Name) and self.ty.get(x.id) == "optint"):
-                self.refuse(st, "`is None` test on something that is not an Optional[int] variable")
+            if not (isinstance(x, ast.Name) and self.ty.get(x.id) in ("optint", "optmatch2")):
+                self.refuse(st, "`is None` test on something that is not an Optional variable")
+            inner = {"optint": "int", "optmatch2": "match2"}[self.ty[x.id]]
             none_body, some_body = (st.body, st.orelse) if isinstance(st.test.ops[0], ast.Is) else (st.orelse, st.body)
             saved = dict(self.ty)
             a = self.block(none_body, cont)
             self.ty = dict(saved)
-            self.ty[x.id] = "int"
+            self.ty[x.id] = inner
             b = self.block(some_body, cont)
             self.ty = dict(saved)
             return ["match %s with" % x.id, "| None =>"] + ["  " + y for y in a] + ["| Some %s =>" % x.id] + \
